@@ -94,6 +94,7 @@ type c18Op struct {
 	Who      int    `json:"who,omitempty"`
 	Interval uint64 `json:"interval,omitempty"`
 	Oracle   bool   `json:"oracle,omitempty"`
+	SameTx   bool   `json:"same_tx,omitempty"` // request: a further message of the transaction that carried the block's previous request
 	FeeCap   string `json:"fee_cap,omitempty"` // amount of stake (decimal)
 	Dt       int64  `json:"dt,omitempty"`
 	Hash     string `json:"hash,omitempty"` // app hash of the previous block as seen by the next block (hex)
@@ -135,7 +136,8 @@ type c18Machine struct {
 
 	nMultiDue, nMultiDueSameWho, nOracleOK, nOracleDone, nBadBody, nErrResp, nTimeout, nSkipped, nNoBinding int
 	nOracleRefused, nOracleLax                                                                              int
-	nZeroInterval, nLarge, nMeta, nPlainDone, nFeeRefused                                                   int
+	nZeroInterval, nLarge, nMeta, nPlainDone, nFeeRefused, nSameTx                                          int
+	blockTx                                                                                                 []byte // tx bytes of the block's latest request
 	nStartFailed, nReimport, nReimportMulti                                                                 int
 }
 
@@ -207,6 +209,7 @@ func (m *c18Machine) Next(t *rapid.T) c18Op {
 		default:
 			op.Interval = rapid.SampledFrom([]uint64{1 << 62, 1<<62 - 1, 1 << 40, 1 << 32, 1000}).Draw(t, "interval/large")
 		}
+		op.SameTx = rapid.IntRange(0, 2).Draw(t, "sametx") == 0
 		if rapid.IntRange(0, 99).Draw(t, "oracle?") < 38 {
 			op.Oracle = true
 			op.FeeCap = rapid.SampledFrom([]string{"10", "10", "10", "10", "10", "2", "2", "1", "1", "1", "1", "3213876088517980551083924184682325205044405987565585670602752"}).Draw(t, "feecap")
@@ -292,7 +295,13 @@ func (m *c18Machine) applyRequest(op c18Op) error {
 		}
 	}
 	h := m.c.Height()
-	res := m.c.Deliver(msg)
+	// requests of several consumers may travel in one transaction (several signers): they share its hash
+	if !op.SameTx || m.blockTx == nil {
+		m.blockTx = m.c.NewTxBytes()
+	} else {
+		m.nSameTx++
+	}
+	res := m.c.DeliverTx(m.blockTx, msg)[0]
 	if res.Outcome == chain.Panicked || res.Outcome == chain.Overflow {
 		return pbt.Failf("C18/request-panic", "request %+v panicked: %v", op, res.Panic)
 	}
@@ -395,6 +404,7 @@ func (m *c18Machine) applyBlock(op c18Op) error {
 	}
 	m.curHash = hash
 	m.asked = map[int]bool{}
+	m.blockTx = nil
 	ts := m.c.Time().Unix()
 	if ts <= 0 {
 		return fmt.Errorf("harness: non-positive block time")
@@ -709,6 +719,7 @@ func (m *c18Machine) Classify() (bool, []string) {
 	add(m.nOracleLax > 0, "oracle-request-unexpectedly-accepted")
 	add(m.nZeroInterval > 0, "interval-0")
 	add(m.nLarge > 0, "large-interval-stays-queued")
+	add(m.nSameTx > 0, "requests-of-several-consumers-in-one-tx")
 	add(m.nMeta > 0, "metamorphic-branch")
 	add(m.nPlainDone >= 3, "plain-fulfilled>=3")
 	return m.nMultiDue > 0 && m.nOracleOK > 0, cl
